@@ -366,5 +366,31 @@ pub fn run(tier: Tier) -> i32 {
         campaign(&t, Alphabet { leaves: leaves(&["x", "2"]), uns: vec![], bins: bins5.clone() }, &[(4, 0)], &[Prov::FlatParse, Prov::DeepParse], false, &mut rep, "n4-single-var");
     }
     let _ = Q::int(0).r().map(|r| r.is_zero());
+    // many operators on one level with mixed priorities (the application order of a deep
+    // level must be the same for evaluation and differentiation)
+    {
+        let mut texts: Vec<String> = Vec::new();
+        for n in if tier.thorough() { vec![19usize, 20, 21, 22, 23, 30, 40, 64] } else { vec![20usize, 21, 22, 33] } {
+            // n operators: c - x*1 - x*2 - ...   and   x / y*2 / x*3 / ...   and a cycle over - * / +
+            texts.push(format!("7{}", (1..=n / 2).map(|k| format!("-x*{k}")).collect::<String>()));
+            texts.push(format!("x{}", (1..=n / 2).map(|k| format!("/y*{}", k + 1)).collect::<String>()));
+            texts.push(format!("y{}", (0..n).map(|k| format!("{}{}", ["-", "*", "/", "+"][k % 4], ["x", "3", "y", "2"][(k / 2) % 4])).collect::<String>()));
+            texts.push(format!("x{}", (0..n).map(|k| format!("{}{}", ["/", "-", "-", "*"][k % 4], ["y", "x", "2", "x"][k % 4])).collect::<String>()));
+        }
+        let accs = par_ranges(texts.len() as u64, 1, install_panic_hook, |st, en, acc| {
+            for i in st..en {
+                let text = &texts[i as usize];
+                let SpecResult::Ok(tree) = spec::read(text, &t, LitKind::Number) else {
+                    println!("MACHINERY-FAILURE property=C05 large-level text not well-formed: {text}");
+                    std::process::exit(2)
+                };
+                judge_tree(&tree, &t, text, &PROVS, false, acc);
+            }
+        });
+        for a in accs {
+            rep.absorb(a);
+        }
+        rep.bounds.push(format!("large levels: {} texts with 19..64 operators of mixed priorities on one level, all provenances, order 1: complete", texts.len()));
+    }
     rep.finish()
 }
